@@ -57,6 +57,19 @@ CHECKS = {
         design="DESIGN.md 5 (C07)",
         technique="TLA+ spec + TLC; spec->code replay in ego and map renderings + direct differential comparison",
     ),
+    "C06": dict(
+        engine="tla-lattice",
+        text="Lattice.tla computes the four matching scores exactly on integer lattices (IoU as rationals by interval overlap in the boxes' common frame, "
+        "squared centre distance, the admissible plane distances under corner-ranking ties, ROI IoU / floor-centre distance) and TLC checks bounds, "
+        "symmetry, identical -> 1, disjoint -> 0, IoU3 <= IoU2, plane >= 0 over sampled and structured (identical / turned / nested / shifted) "
+        "box pairs and all ROI pairs; each pair is realised as real objects as is, rotated about the ego by 3-4-5 angles and rotated + translated, "
+        "and CenterDistance / PlaneDistance / IOU2d / IOU3d values, result attributes, footprint, area, volume are compared with the exact values "
+        "to 1e-9. Random float pairs (any relative yaw, size ratio to 1:50) under random rigid motions are validated as traces for the relational laws.",
+        note="exact for aligned / nested / disjoint / identical pairs under lattice rigid motions; for partial overlap at a non-right relative yaw only "
+        "bounds, symmetry and invariance are decided (DESIGN.md 8); one known finding (GEOS robustness on shared collinear edges)",
+        design="DESIGN.md 5 (C06)",
+        technique="TLA+ spec + TLC; spec->code replay under rigid motions; code->spec trace validation of relational laws",
+    ),
     "C09": dict(
         engine="tla-heading",
         text="Heading.tla defines the minimal yaw difference D on an angle grid Z/M, the APH weight (M/2 - D)/(M/2) and the admissible signed yaw "
